@@ -6,11 +6,11 @@ MODULE = "DrandProofs.C16"
 THEOREMS = ["Drand.Time.c16_current_unique", "Drand.Time.c16_next", "Drand.Time.c16_next_before_genesis",
             "Drand.Time.c16_strict_mono", "Drand.Time.c16_round0_is_genesis",
             "Drand.Time.c16_time_of_round_refines", "Drand.Time.c16_time_of_round_exact",
-            "Drand.Time.c16_next_round_refines", "Drand.Time.c16_current_round_refines"]
+            "Drand.Time.c16_next_round_refines", "Drand.Time.c16_current_round_refines", "Drand.Time.c16_float_floor"]
 TRUSTED = ["Lean 4 kernel; axioms per theorem listed under coverage.axioms",
            "go2lean constants: timeBufferBits, the +k of the round-limit shift (regenerated every run)",
            "correspondence harness engine 'time' calling common.TimeOfRound/NextRound/CurrentRound in-process",
-           "modelled, not verified: IEEE-754 binary64 division/Floor/Log2 of Go (float64(a)/p floor == a div p; int(Log2(p+1)) == Nat.log2(p+1)), checked by D on boundary-directed inputs"]
+           "IEEE-754 binary64: c16_float_floor proves floor(rnd(a/p)) = a div p for a < 2^53 from three stated facts about the rounding (monotone, exact on integers <= 2^53, relative error <= 2^-53), which are hypotheses about Go's float64 division, not theorems; int(math.Log2(p+1)) = Nat.log2(p+1) is checked by D on the complete power-of-two table"]
 ASSUMPTIONS = ["period is a whole number of seconds 1..2^32-1, genesis 0..2^32, now-genesis <= 2^50 (the property's domain)"]
 
 MAXI64 = (1 << 63) - 1
